@@ -515,3 +515,96 @@ seeded("d4-drop-first-line", ["C17"], "D4", [(M, '''            lines = content.
             return''')])
 seeded("d5-active-anywhere", ["C17"], "D5", [(M, "if self.__active_expr.match(m.group(2)):", "if self.__active_expr.search(l):")], "a script called \"inactive\" becomes the active one")
 benign("c17-name-pattern-equivalent", ["C17"], [(M, NAMEPAT, 'rb\'"((?:\\\\.|[^"\\\\])*)"[ \\t]*(.*)\'')])
+
+# --------------------------------------------------------------------------- C02
+seeded("x1-number-can-be-empty", ["C02"], "X1", [(P, '''(b"number", rb"[0-9]+[KMGkmg]?"),''', '''(b"number", rb"[0-9]*[KMGkmg]?"),''')], "every test script still lexes the same; '@' now hangs")
+seeded("x1-whitespace-star", ["C02"], "X1", [(P, '''re.compile(rb"\\s+", re.M)''', '''re.compile(rb"\\s*", re.M)''')])
+seeded("x1-token-pos-not-advanced", ["C02"], "X1", [(P, '''            yield (m.lastgroup, m.group(m.lastgroup))
+            self.pos += len(m.group(0))''', '''            yield (m.lastgroup, m.group(m.lastgroup))
+            if m.lastgroup != "bracket_comment":
+                self.pos += len(m.group(0))''')])
+seeded("x1-match-not-at-pos", ["C02"], "X1", [(P, "m = self.regexp.match(text, self.pos)", "m = self.regexp.match(text)")])
+seeded("x2-unconditional-replay", ["C02", "C18"], "X2", [(P, '''            self.__curcommand.reassign_arguments()
+            if not self.__curcommand.iscomplete():
+                # nothing to reassign: replaying the token would loop forever
+                return False
+''', '''            self.__curcommand.reassign_arguments()
+''')], "pre-fix behaviour; suite passes")
+seeded("x2-rewind-two", ["C02", "C18"], "X2", [(P, "            self.lexer.pos -= 1\n", "            self.lexer.pos -= 2\n")])
+seeded("x2-foreign-reset", ["C02", "C18"], "X2", [(P, '''        if ttype == "left_parenthesis":
+            self.__push_expected_bracket("right_parenthesis", b")")''', '''        if ttype == "left_parenthesis":
+            self.lexer.pos = self.lexer.pos
+            self.__push_expected_bracket("right_parenthesis", b")")''')])
+seeded("x3-parent-walk-broken", ["C02"], "X3", [(P, '''        while self.__curcommand:
+            self.__curcommand = self.__curcommand.parent
+            if not self.__curcommand:
+                break''', '''        while self.__curcommand:
+            if not self.__curcommand.iscomplete():
+                self.__curcommand = self.__curcommand.parent
+            if not self.__curcommand:
+                break''')])
+seeded("x3-counting-loop-stuck", ["C02"], "X3", [(C, '''                break
+
+            pos += 1
+''', '''                break
+
+            pos += 0 if curarg.get("skip") else 1
+''')])
+seeded("x4-foreign-exception", ["C02"], "X4", [(C, '''            raise BadValue(self.curarg["name"], avalue)''', '''            raise ValueError("bad value %s" % avalue)''')], "no test has a bad tag parameter of that kind... (checker test)")
+seeded("x4-funnel-narrowed", ["C02"], "X4", [(P, "except (ParseError, CommandError, UnicodeDecodeError) as e:", "except (ParseError, UnicodeDecodeError) as e:")])
+seeded("x4-exception-reparented", ["C02"], "X4", [(C, "class ExtensionNotLoaded(CommandError):", "class ExtensionNotLoaded(Exception):")])
+seeded("x5-funnel-without-unicode", ["C02"], "X5", [(P, "except (ParseError, CommandError, UnicodeDecodeError) as e:", "except (ParseError, CommandError) as e:")], "pre-fix behaviour")
+seeded("x5-decode-in-handler", ["C02"], "X5", [(P, '''            self.error = "line %d: %s" % (self.error_pos[0], str(e))''', '''            self.error = "line %d: %s near %s" % (self.error_pos[0], str(e), tvalue.decode())''')])
+seeded("x6-unguarded-last", ["C02"], "X6", [(P, "prevcmd = self.result[-1] if len(self.result) != 0 else None", "prevcmd = self.result[-1]")], "`else { }` as first command: IndexError")
+seeded("x6-byte-offset-as-index", ["C02"], "X6", [(P, '''                        tvalue.decode("utf-8", "replace"),
+                        text[self.lexer.pos :].decode("utf-8", "replace")[:1],''', '''                        tvalue.decode("utf-8", "replace"),
+                        text.decode("utf-8", "replace")[self.lexer.pos],''')], "pre-fix behaviour")
+seeded("x7-require-unguarded", ["C02"], "X7", [(C, '''        if "capabilities" not in self.arguments:
+            return
+''', '')], "pre-fix behaviour")
+seeded("x8-lookup-any-name", ["C02", "C01"], {"C02": "X8", "C01": "T4"}, [(C, '''    condition = (
+        cname not in gl
+        or not isinstance(gl[cname], type)
+        or not issubclass(gl[cname], Command)
+        or not hasattr(gl[cname], "args_definition")
+    )''', '''    condition = cname not in gl''')], "pre-fix behaviour")
+seeded("x8-new-abstract-class", ["C02", "C01"], {"C02": "X8", "C01": "T4"}, [(C, '''    condition = (
+        cname not in gl
+        or not isinstance(gl[cname], type)
+        or not issubclass(gl[cname], Command)
+        or not hasattr(gl[cname], "args_definition")
+    )''', '''    condition = (
+        cname not in gl
+        or not isinstance(gl[cname], type)
+        or not issubclass(gl[cname], Command)
+    )'''), (C, '''class StopCommand(ActionCommand):''', '''class FilterCommand(ActionCommand):
+    """Base class for actions that file a message."""
+
+
+class StopCommand(ActionCommand):''')], "`filter;` -> AttributeError")
+seeded("x9-format-arity", ["C02"], "X9", [(P, '''raise ParseError("unexpected closing bracket %s (none opened)" % (tvalue,))''', '''raise ParseError("unexpected closing bracket %s (none opened, %s)" % (tvalue,))''')], "only raised for a stray closing bracket")
+seeded("x10-slot-called-when-none", ["C02"], "X10", [(P, '''        if self.__cstate(ttype, tvalue):
+            return True
+
+        if ttype == "left_cbracket":''', '''        if ttype == "left_cbracket":''')  , (P, '''        if self.__cstate is None:
+            if ttype == "right_cbracket":''', '''        if self.__cstate(ttype, tvalue):
+            return True
+        if self.__cstate is None:
+            if ttype == "right_cbracket":''')])
+seeded("x11-handler-returns-none", ["C02"], "X11", [(P, '''            self.error = "line %d: %s" % (self.error_pos[0], str(e))
+            return False''', '''            self.error = "line %d: %s" % (self.error_pos[0], str(e))
+            return''')])
+seeded("x11-error-pos-pair", ["C02", "C18"], {"C02": "X11", "C18": "Z3"}, [(P, '''                self.lexer.curcolno(),
+                len(tvalue),
+            )''', '''                self.lexer.curcolno(),
+            )''')])
+seeded("l7-quadratic-multiline", ["C02"], "L7", [(P, '''(b"multiline", rb"text:[\\s\\S]*?\\n\\.\\r?$"),''', '''(b"multiline", rb"text:[\\s\\S]*?[\\r\\n]+\\.\\r?$"),''')])
+benign("c02-pos-from-end", ["C02", "C18"], [(P, "            self.pos += len(m.group(0))", "            self.pos = m.end()")])
+benign("c02-new-parse-error-subclass", ["C02"], [(P, '''class Lexer:''', '''class LexError(ParseError):
+    """Lexical error."""
+
+
+class Lexer:'''), (P, '''raise ParseError(f"unknown token {token}")''', '''raise LexError(f"unknown token {token}")''')])
+benign("c02-extra-safe-decode", ["C02"], [(P, '''        if ttype in ["number", "tag"]:
+            return self.__curcommand.check_next_arg(ttype, tvalue.decode("ascii"))''', '''        if ttype in ["number", "tag"]:
+            return self.__curcommand.check_next_arg(ttype, tvalue.decode("utf-8"))''')])
